@@ -977,7 +977,7 @@ example :
     challenge is answered with a certificate signed by the provisioner's own key pair. -/
 def exServer : Server :=
   { provPair := ⟨true, true⟩, dfltDecrypter := ⟨true, false⟩, dfltSigner := ⟨true, true⟩, nInter := 1, nRoots := 1,
-    excludeIntermediate := false, includeRoot := false, caps := [] }
+    excludeIntermediate := false, includeRoot := false, caps := [], encAlg := 2 }
 def exHttp : HttpReq :=
   { meth := .get, path := .name, lookup := .scep, queryOk := true, op := .pki, decProv := true, decDflt := false }
 
@@ -1108,5 +1108,155 @@ theorem rejected_challenge_answered_http (S : Server) (n : Nat) (c : Config) (h 
 example : ∃ sv, serve asCoded routesAsCoded exServer (initN 1 (Prov.new d4Config)) exHttp
       { d4Req with mt := some tPKCSReq, cp := [120] } = .val sv ∧ sv.out = .pkiReply failureReply .prov :=
   ⟨{ out := .pkiReply failureReply .prov, hookCalls := 0, hookHttp := 0, stored := 0, notifyCalls := 0 }, by decide, rfl⟩
+
+end Verif.SCEP
+
+namespace Verif.SCEP
+open Verif
+
+/-! ## 9. configuration conversions (ca.json ⇄ admin database) keep the challenge in force -/
+
+theorem isChallengeHook_rt (h : Hook) : isChallengeHook (rtHook h) = isChallengeHook h := by
+  obtain ⟨k, ct, f, s2⟩ := h
+  cases k <;> cases ct <;> rfl
+
+theorem isNotifyHook_rt (h : Hook) : isNotifyHook (rtHook h) = isNotifyHook h := by
+  obtain ⟨k, ct, f, s2⟩ := h
+  cases k <;> cases ct <;> rfl
+
+theorem res_rt (h : Hook) : (rtHook h).res = h.res := rfl
+
+theorem filter_map_rt (f : Hook → Bool) (hf : ∀ h, f (rtHook h) = f h) (l : List Hook) :
+    (l.map rtHook).filter f = (l.filter f).map rtHook := by
+  induction l with
+  | nil => rfl
+  | cons x xs ih =>
+    simp only [List.map_cons, List.filter_cons, hf x]
+    split <;> simp [ih]
+
+theorem challengeHooks_roundTrip (p : ProvCfg) :
+    challengeHooks (roundTrip p).cfg = (challengeHooks p.cfg).map rtHook := by
+  simp only [challengeHooks, roundTrip]
+  exact filter_map_rt _ isChallengeHook_rt _
+
+theorem notifyHooks_roundTrip (p : ProvCfg) :
+    notifyHooks (roundTrip p).cfg = (notifyHooks p.cfg).map rtHook := by
+  simp only [notifyHooks, roundTrip]
+  exact filter_map_rt _ isNotifyHook_rt _
+
+theorem runHooks_map_rt (l : List Hook) (a n : Nat) : runHooks (l.map rtHook) a n = runHooks l a n := by
+  induction l generalizing a n with
+  | nil => rfl
+  | cons x xs ih =>
+    simp only [List.map_cons, runHooks, res_rt]
+    cases x.res <;> simp [ih]
+
+theorem runNotify_map_rt (l : List Hook) : runNotify (l.map rtHook) = runNotify l := by
+  induction l with
+  | nil => rfl
+  | cons x xs ih =>
+    simp only [List.map_cons, runNotify, res_rt]
+    cases x.res <;> simp [ih]
+
+theorem selectValidationMethod_roundTrip (p : ProvCfg) :
+    selectValidationMethod (roundTrip p).cfg = selectValidationMethod p.cfg := by
+  unfold selectValidationMethod
+  rw [challengeHooks_roundTrip]
+  simp only [List.length_map]
+  rfl
+
+theorem validateChallenge_roundTrip (p : ProvCfg) (cp : Str) :
+    validateChallenge (roundTrip p).cfg cp = validateChallenge p.cfg cp := by
+  unfold validateChallenge
+  rw [selectValidationMethod_roundTrip, challengeHooks_roundTrip, runHooks_map_rt]
+  rfl
+
+/-- **A provisioner that went through the admin database behaves as configured**: the PKI operation
+    on `ProvisionerToCertificates (ProvisionerToLinkedca p)` is the PKI operation on `p`, for every
+    request. -/
+theorem pkiOperation_roundTrip (F : Facts) (p : ProvCfg) (q : Req) :
+    pkiOperation F (roundTrip p).cfg q = pkiOperation F p.cfg q := by
+  unfold pkiOperation
+  simp only [validateChallenge_roundTrip, notifyHooks_roundTrip, runNotify_map_rt]
+
+theorem accepted_roundTrip (p : ProvCfg) (q : Req) : Accepted (roundTrip p).cfg q ↔ Accepted p.cfg q := by
+  unfold Accepted
+  rw [selectValidationMethod_roundTrip, challengeHooks_roundTrip]
+  cases selectValidationMethod p.cfg <;> simp [roundTrip, res_rt]
+  intro _
+  constructor
+  · rintro ⟨h, ⟨a, ha, rfl⟩, hr⟩
+    exact ⟨a, ha, by simpa [res_rt] using hr⟩
+  · rintro ⟨a, ha, hr⟩
+    exact ⟨rtHook a, ⟨a, ha, rfl⟩, by simpa [res_rt] using hr⟩
+
+/-- nothing else of the configuration changes, and a second conversion changes nothing more -/
+theorem roundTrip_fields (p : ProvCfg) :
+    (roundTrip p).cfg.secret = p.cfg.secret ∧ (roundTrip p).forceCN = p.forceCN ∧ (roundTrip p).caps = p.caps ∧
+    (roundTrip p).includeRoot = p.includeRoot ∧ (roundTrip p).excludeIntermediate = p.excludeIntermediate ∧
+    (roundTrip p).minKeyLen = p.minKeyLen ∧ (roundTrip p).encAlg = p.encAlg ∧
+    (roundTrip p).decCert = p.decCert ∧ (roundTrip p).decKey = p.decKey ∧
+    (roundTrip p).cfg.hooks.length = p.cfg.hooks.length ∧
+    roundTrip (roundTrip p) = roundTrip p := by
+  refine ⟨rfl, rfl, rfl, rfl, rfl, rfl, rfl, rfl, rfl, by simp [roundTrip], ?_⟩
+  simp only [roundTrip, List.map_map]
+  congr 2
+  apply List.map_congr_left
+  intro h _
+  obtain ⟨k, ct, f, s2⟩ := h
+  cases ct <;> rfl
+
+/-- `k` conversions to the admin database and back -/
+def roundTrips : Nat → ProvCfg → ProvCfg
+  | 0, p => p
+  | k + 1, p => roundTrips k (roundTrip p)
+
+/-- **`challenge_required` for a provisioner migrated to / loaded from the admin database** any number
+    of times and initialised any number of times. -/
+theorem challenge_required_after_conversions (k n : Nat) (p : ProvCfg) (q : Req) (res : Result)
+    (hm : selectValidationMethod p.cfg ≠ .none)
+    (hrun : pkiOperationP asCoded (initN (n + 1) (Prov.new (roundTrips k p).cfg)) q = .val res)
+    (hc : res.carriesCert = true) : Accepted p.cfg q := by
+  induction k generalizing p with
+  | zero => exact challenge_required_any_inits n p.cfg q res hm hrun hc
+  | succ k ih =>
+    have := ih (roundTrip p) (by rwa [selectValidationMethod_roundTrip]) (by simpa [roundTrips] using hrun)
+    exact (accepted_roundTrip p q).mp this
+
+/-- `Init` refuses exactly the encryption algorithm identifiers above 4 and key lengths that are not
+    a multiple of 8, and sets the default minimum key length. -/
+theorem initDefaults_spec (p : ProvCfg) :
+    (initDefaults p = none ↔ (p.encAlg > 4 ∨ p.minKeyLen % 8 ≠ 0)) ∧
+    (∀ p', initDefaults p = some p' → p'.cfg = p.cfg ∧ p'.minKeyLen ≠ 0 ∧ (p.minKeyLen ≠ 0 → p'.minKeyLen = p.minKeyLen)) := by
+  unfold initDefaults
+  constructor
+  · split
+    · simp [*]
+    · split
+      · simp [*]
+      · simp; omega
+  · intro p' h
+    split at h
+    · simp at h
+    · split at h
+      · simp at h
+      · simp at h; subst h
+        refine ⟨rfl, ?_, ?_⟩
+        · simp; split <;> omega
+        · intro hne; simp [hne]
+
+def exProvCfg : ProvCfg where
+  cfg := { secret := [], hooks := [⟨.scep, .unset, .deny, .deny⟩] }
+  forceCN := false
+  caps := []
+  includeRoot := false
+  excludeIntermediate := false
+  minKeyLen := 0
+  encAlg := 2
+  decCert := false
+  decKey := false
+
+example : (roundTrip exProvCfg).cfg.hooks = [⟨.scep, .all, .deny, .deny⟩] ∧
+    (initDefaults exProvCfg).map (·.minKeyLen) = some 2048 := by decide
 
 end Verif.SCEP
